@@ -185,8 +185,28 @@ Definition spec_new_string (S : astate2) (ty : Z) (sb : ptr) : astate2 * ptr :=
            Some id)
       | None => (S, None)
       end
-  | None => (S, None)
+  | None =>   (* a NULL string: the node is allocated and released again, NULL is returned *)
+      (mk3 (a_forest S) (Pos.succ (nxt S)) (Datatypes.S (req S)) (a_str S) (a_foreign S), None)
   end.
+
+Lemma run_create_string_like_null ty h F :
+  WF h F -> live_below h ->
+  create_string_like nv ty None h = Ret (None, free1 (h_next h) (new_node h (rd_of_type ty))) /\
+  clean_failure h (free1 (h_next h) (new_node h (rd_of_type ty))).
+Proof.
+  intros W LB. unfold create_string_like, cJSON_New_Item.
+  rewrite (bindM_Ret _ _ _ _ _ (run_alloc_node_ok nv _ eq_refl)). cbn [is_null].
+  rewrite (bindM_Ret _ _ _ _ _ (run_set_type_plain _ _ _ ty (new_node_live _ _) (new_node_dat _ _))).
+  rewrite (new_node_set h _ _ (rd_of_type ty)) by reflexivity.
+  set (h1 := new_node h (rd_of_type ty)).
+  rewrite (bindM_Ret _ _ _ _ _ (CoreRefineCreate.cJSON_strdup_null nv h1)). unfold h1.
+  rewrite (bindM_Ret _ _ _ _ _ (run_set_vstr_plain _ _ _ None (new_node_live _ _) (new_node_dat _ _))).
+  rewrite (new_node_set h _ _ (rd_of_type ty)) by reflexivity.
+  rewrite (bindM_Ret _ _ _ _ _ (run_get_vstr_plain _ _ _ (new_node_live _ _) (new_node_dat _ _))).
+  cbn [nd_vstr mk_dat rd_vstr rd_of_type is_null].
+  destruct (cJSON_Delete_new_node h F (rd_of_type ty) _ W LB (owned_strs_of_type ty) ltac:(done) (or_introl eq_refl)) as [Hdel Hcf].
+  rewrite (bindM_Ret _ _ _ _ _ Hdel). done.
+Qed.
 
 Lemma name_ok_Readable h S n :
   Abs3 h S -> name_ok S n -> exists nb (s : bytes), n = Some nb /\ CoreRefineCreate.Readable h nb /\
@@ -200,11 +220,20 @@ Proof.
 Qed.
 
 Lemma Step_create_string_like S ty sb :
-  Z.land ty c_cJSON_IsReference = 0 -> Z.land ty c_cJSON_StringIsConst = 0 -> name_ok S sb ->
+  Z.land ty c_cJSON_IsReference = 0 -> Z.land ty c_cJSON_StringIsConst = 0 -> sb = None \/ name_ok S sb ->
   Step (create_string_like nv ty sb) S (spec_new_string S ty sb).1 (spec_new_string S ty sb).2.
 Proof.
   intros Hr Hc Hn. apply Step_intro; [auto with cons|]. intros h HA. pose proof HA as [HA2 K].
   pose proof HA2 as ((W & NL & Hnext & Hreq) & Hs & [SI1 SI2] & KO).
+  destruct Hn as [->|Hn].
+  { destruct (run_create_string_like_null ty h _ W (hk_live _ K)) as [E Hcf].
+    eexists. split; [exact E|]. cbn [spec_new_string fst]. unfold nxt, req. rewrite <- Hnext, <- Hreq.
+    set (h' := free1 (h_next h) (new_node h (rd_of_type ty))).
+    change (Pos.succ (h_next h)) with (h_next h'). change (Datatypes.S (h_req h)) with (h_req h').
+    refine (Abs2_build h h' S _ _ HA (Cons_create_string_like nv ty None _ _ _ E K)
+              (clean_failure_WF _ _ _ W Hcf) (clean_failure_NoLeak _ _ _ (hk_live _ K) Hcf NL) _ KO).
+    cbn. rewrite <- Hs. apply delete_notin. destruct (h_str h !! h_next h) eqn:Eh; [|done].
+    destruct (hk_str _ K (h_next h) ltac:(eauto)) as [Hl _]. pose proof (hk_live _ K _ Hl). lia. }
   destruct (name_ok_Readable h S sb HA Hn) as (nb & s & -> & HR & Hs1 & Hs2 & Hz & Hat & Hlt).
   destruct (create_string_like_sim nv ty h _ nb W (hk_live _ K) HR Hr Hc)
     as [(_ & _ & E & W' & _ & NL' & _)|(h' & _ & _ & Hf)]; [|by apply refused_false in Hf].
